@@ -15,7 +15,7 @@ import (
 
 type c09 struct{}
 
-func init() { core.Register(c09{}) }
+func init()            { core.Register(c09{}) }
 func (c09) ID() string { return "C09" }
 
 type c09Case struct {
